@@ -19,9 +19,6 @@ open Timer (CbOp)
 
 def tkb (s : String) : Float := Float.ofBitsStr s
 
-def cellVal (s : KState Float (TSt Float)) (k : Nat) : Val :=
-  ((s.shared.find? (·.1 == k)).map (·.2)).getD Val.none
-
 def cellBits (s : KState Float (TSt Float)) (k : Nat) : String :=
   match (TimeCell.dec (cellVal s k) : Option Float) with
   | some x => x.bitsStr
